@@ -878,6 +878,16 @@ class NetworkGraph(AbstractBaseIR):
 
                     Nt, Ns = weight.shape
 
+                    def _reduce_eq(expr):
+                        """Weighted sum of the (Nt, Ns) coupling over the sources."""
+                        if Nt == 1:
+                            # a single target unit is a scalar at runtime: reduce the single row
+                            # to a 0-d value instead of a (1,)-shaped row sum
+                            w_1d = weight.squeeze(axis=0)
+                            args[w_str] = {'vtype': 'constant', 'value': w_1d, 'dtype': 'float', 'shape': w_1d.shape}
+                            return f"{t_str} = vsum({w_str} * flatten1d({expr}))"
+                        return f"{t_str} = wsum({w_str}, {expr})"
+
                     # Detect which edge variables are state variables (have DEs)
                     edge_de_sv_names = set()
                     for _ok in edge_ir.op_graph.nodes:
@@ -944,7 +954,7 @@ class NetworkGraph(AbstractBaseIR):
                             last_out = _od.get('output')
 
                         final_expr = expr_map.get(last_out, last_out)
-                        eqs.append(f"{t_str} = wsum({w_str}, {final_expr})")
+                        eqs.append(_reduce_eq(final_expr))
 
                     else:
                         # case 0b: non-dynamic (algebraic) edge — inline and reduce
@@ -972,7 +982,7 @@ class NetworkGraph(AbstractBaseIR):
                             last_out = _od.get('output')
 
                         final_expr = expr_map.get(last_out, last_out)
-                        eqs.append(f"{t_str} = wsum({w_str}, {final_expr})")
+                        eqs.append(_reduce_eq(final_expr))
 
                 in_vars.append(t_str)
                 continue
